@@ -424,9 +424,33 @@ def run(ctx):
     ctx.notes["tlc_configurations"] = len(cfgs)
     ctx.notes["inadmissible_structures_tried"] = len(bad)
     ctx.notes["identifying_probe_points"] = nident
+    sweep_n_points(ctx)
     # growth beyond the listed property: the sphere-point relaxation used for n_dim >= 3
     from . import ext_nsphere
     ext_nsphere.run_ext(ctx, import_virocon())
+
+
+def sweep_n_points(ctx):
+    """'exactly n_points points, equally spaced angles' for EVERY n_points in a range (2-D, both methods):
+    float angle tables (arange / linspace variants) go wrong only for sparse n_points values."""
+    vc = import_virocon()
+    model = vc.GlobalHierarchicalModel([{"distribution": vc.NormalDistribution(mu=1.0, sigma=0.5)},
+                                        {"distribution": vc.LogNormalDistribution(mu=0.3, sigma=0.4)}])
+    hi = ctx.pick(400, 1500)
+    recs, keys = [], []
+    for n in range(3, hi + 1):
+        for method in (("iform", "isorm") if (n % 2 == 0 or not ctx.quick) else ("iform",)):
+            c = dict(n_dim=2, cond=[None, None], n_points=n, alpha=0.05)
+            rec, _ = contour_record(vc, model, c, method)
+            rec["id"] = len(recs) + 1
+            recs.append(rec)
+            keys.append(f"{method} sweep model=normal,lognormal independent alpha=0.05 n_points={n}")
+    failing = ctx.validate("Trace_C01", "Trace_C01.cfg", recs)
+    for r, k in zip(recs, keys):
+        ctx.case(k)
+        for clause in failing.get(r["id"], []):
+            ctx.violation(clause, k, f"exc={r['exc']} shapeok={r['shapeok']} len={len(r['r'])}", replay=None)
+    ctx.notes["n_points_sweep"] = f"3..{hi}"
 
 
 def replay(ctx, case):
